@@ -99,6 +99,60 @@ def r1(run):
     run.ob("%s|live|count-seeded-from-history" % C.READ, seeded, live.sp, "the live counter starts from the count handed over by the history scan", reason="limit-accounting")
 
 
+def loop_exit_edges(body, head_bb, start_targets):
+    """Edges on which a path that started at `start_targets` (inside the loop whose head is `head_bb`) leaves the loop for good:
+    the edge's target can reach a return without passing the head again, cannot reach the head, and a sibling edge can."""
+    inside = body.reachable_blocks(start_targets, removed_blocks=[head_bb])
+    rets = set(body.return_blocks())
+    out = []
+    for bb, si in body.switches():
+        if bb not in inside:
+            continue
+        info = []
+        for (t, lab, m) in si["edges"]:
+            cont = t == head_bb or q.reaches(body, t, head_bb)
+            ex = t in rets or any(r in body.reachable_blocks([t], removed_blocks=[head_bb]) for r in rets)
+            info.append((t, lab, m, cont, ex))
+        if any(i[3] for i in info):
+            for (t, lab, m, cont, ex) in info:
+                if ex and not cont:
+                    out.append((bb, t, lab, m, si))
+    return out
+
+
+def r8(run):
+    """The live loop skips frames it filters out; it ends only when the subscription ends, the subscriber is gone, or the limit is reached."""
+    _RUN[0] = run
+    ls = c03.live_shape(run)
+    if ls is None:
+        run.missing("%s|live-body" % C.READ, "live task not found")
+        return
+    live, recvs, sends = ls
+    if len(recvs) != 1:
+        run.unrecognised("%s|live|loop-head" % C.READ, "expected one broadcast recv in the live task", live.sp)
+        return
+    r = recvs[0]
+    ok_edges = q.call_result_edges(live, r, ok=True)
+    if not ok_edges:
+        run.unrecognised("%s|live|recv-result" % C.READ, "cannot find the Ok edge of the broadcast recv", r.sp)
+        return
+    reached = [e for c in limit_cmp_edges(live) for e in c[3]]
+    exits = loop_exit_edges(live, r.bb, [t for (_, t, _) in ok_edges])
+    run.floor("exits of the live loop after a frame was received", len(exits), 1, live.sp)
+    for (bb, t, lab, m, si) in exits:
+        cond = si["cond"]
+        why = None
+        if any(cc.fn == C.MPSC_SEND for cc in q.calls_in(cond)):
+            why = "subscriber gone (delivery failed)"
+        elif (bb, t, lab) in reached:
+            why = "limit reached"
+        cm = q.comparison(cond)
+        tag = "ok" if why else ("%s(%s)" % (cm[0], q.last_field(cm[1]) or q.last_field(cm[2]) or "?") if cm else "other")
+        run.ob("%s|live|loop-exit|%s" % (C.READ, tag), why is not None, live.blocks[bb]["term"]["sp"],
+               "the live loop is left only because the subscriber is gone or the limit is reached (this exit: %s on `%s`)" % (why or "a frame that is merely filtered out ends the stream", fmt(strip(cond))[:100]),
+               reason="filtered-frame-ends-stream")
+
+
 def r2(run):
     _RUN[0] = run
     rb = read_bodies(run)
@@ -277,5 +331,6 @@ RULES = [
     ("R-C11-4", "synthetic frames flow only into the subscriber's channel, are never stored/broadcast, never counted", r4),
     ("R-C11-5", "threshold only when following without limit, after the scan, before done (shared with R-C03-4)", c03.r4),
     ("R-C11-7", "a follower that cannot keep up: any receive error (Lagged) ends the live task - the stream never continues past a gap", r7),
+    ("R-C11-8", "the live loop skips filtered frames (other context, already scanned) and ends only when the subscriber is gone or the limit is reached", r8),
     ("R-C11-6", "only the history scan and the live task hold strong senders; the heartbeat holds a WeakSender and stops when upgrade fails", r6),
 ]
